@@ -11,6 +11,18 @@ NOTE = ("Trusted base: the Go type checker (go/types), go/packages loading of /r
 
 # id -> (technique, level text, design ref)
 CLAIMS = {
+ "C02": ("path-sensitive must-pass-through on the SSA CFG of Transfer/Destroy under assumed values of IsResourceKinded/remove + census of resource-loss guards",
+         "Structural necessary conditions: a resource-kinded transfer always clears its source, Destroy always destroys nested values under the double-destruction guard and marks/clears the value, and every slot overwrite keeps its resource-loss check.",
+         "DESIGN.md §4 C02"),
+ "C04": ("path-sensitive must-pass-through of InvalidateReferencedResources in Transfer/Destroy + single-writer check of reference invalidation + census of use-check call sites + field-ownership of the VM operand stack",
+         "Structural necessary conditions: moving or destroying a resource invalidates its references on every path, only one routine clears references, the use check keeps its reviewed call sites, and the VM reads operands only through checking accessors.",
+         "DESIGN.md §4 C04"),
+ "C05": ("path-sensitive must-pass-through / never-reach on the SSA CFG of the three container Transfer methods under assumed values of IsResourceKinded/remove",
+         "Structural necessary conditions: a non-resource value is always copied into a new container and a pure copy (remove=false) never clears or pops its source.",
+         "DESIGN.md §4 C05"),
+ "C23": ("path-sensitive must-pass-through of PopIterate/RemoveReferencedSlab after a copy with remove=true + census of slab-removal call edges + guard-edge check of CommitStorage's health check",
+         "Structural necessary conditions: a moving copy removes the old container's child and root slabs on every path, overwrite/removal paths keep their reviewed slab-removal calls, and the commit-time health check runs when enabled and returns its error.",
+         "DESIGN.md §4 C23"),
  "C42": ("bimap row-name agreement and uniqueness (AST) + pinned CCF tag / simple-type numbers + written-vs-accepted tag set agreement + census of sort and order-enforcement sites",
          "Structural necessary conditions: simple types are paired with their own IDs exactly once, wire numbers are pinned, every tag written is accepted and vice versa, and each sorting site of the encoder has its enforcing counterpart in the decoder.",
          "DESIGN.md §4 C42"),
